@@ -17,7 +17,7 @@ CONSTANTS
   UFull = TRUE
   AutoCreate = FALSE
   MaxSG = 0
-  MaxOps = 4
+  MaxOps = 3
   Record = FALSE
   Probing = FALSE
   NoOpSteps = FALSE
